@@ -215,8 +215,18 @@ fn marker(rw: &mut Rw, op: &str, s: &Src) -> (Stmt, usize) {
     let k = syn::LitStr::new(&key, Span::call_site());
     let l = syn::LitStr::new(&lt, Span::call_site());
     let v = rw.next("iter:var");
-    let iv = syn::LitStr::new(&format!("__i{}", v), Span::call_site());
+    let ivs = if matches_windows(s) { format!("w:__i{}", v) } else { format!("__i{}", v) };
+    let iv = syn::LitStr::new(&ivs, Span::call_site());
     (parse_quote!(vx_loop!(#k, #l, #iv);), v)
+}
+
+fn matches_windows(s: &Src) -> bool {
+    match s {
+        Src::Windows2(_) => true,
+        Src::Copied(a) | Src::Enumerate(a) | Src::Map(a, _) | Src::Skip(a, _) => matches_windows(a),
+        Src::Zip(a, b) => matches_windows(a) || matches_windows(b),
+        _ => false,
+    }
 }
 
 fn and_all(cs: Vec<Expr>) -> Expr {
